@@ -185,7 +185,9 @@ def _isolation_history(seed):
             if miss:
                 out.append("recon s%d %d %d 0 -100 0 0 %d %s" % (s, T, sorted(miss)[0], len(idx), " ".join(map(str, idx))))
             out.append("enc_cleanup s%d %d 0" % (s, T))
-    cfgs = [(BE_RS, 2, 1, 1, 16), (BE_RS, 4, 2, 2, 16), (BE_RS, 3, 3, 3, 16), (BE_XOR, 3, 3, 3, 32), (BE_ISAL_VAND, 4, 2, 2, 8), (BE_RS, 5, 2, 2, 16)]
+    # incl. parity-less RS instances (m = 0 is accepted): they share the GF tables like any other RS instance
+    cfgs = [(BE_RS, 2, 1, 1, 16), (BE_RS, 4, 2, 2, 16), (BE_RS, 3, 3, 3, 16), (BE_XOR, 3, 3, 3, 32), (BE_ISAL_VAND, 4, 2, 2, 8), (BE_RS, 5, 2, 2, 16),
+            (BE_RS, 4, 0, 0, 16), (BE_RS, 1, 0, 0, 16), (BE_RS, 1, 1, 1, 16), (BE_RS, 20, 12, 12, 16), (BE_XOR, 10, 5, 4, 32), (BE_ISAL_CAUCHY, 5, 3, 3, 8)]
     for s in range(1, 6):
         be, k, m, hd, w = r.choice(cfgs)
         out.append("create %d %d %d %d %d %d %d" % (s, be, k, m, hd, w, 2))
@@ -233,6 +235,11 @@ def c16():
         sw.append("sweep_need_len %d %d %d %d %d %d %d %d" % (BE_XOR, k, m, hd, WORD[BE_XOR], hd + 1, 60, _seed_of(chk, 850 + ti)))
     for (k, m) in [(4, 2), (10, 4), (3, 3), (20, 12)]:
         sw.append(need_cmd(BE_RS, k, m, m, min(m + 1, 4), 1500, _seed_of(chk, 870 + k)))
+    # refused creates keep nothing: every backend id x shapes around the accepted region x word sizes (create + destroy)
+    for be in (0, 3, 4, 6, 7, 1, 2, 5, 8):
+        sw.append("create_box %d -1 6 -1 5 %s %d 1" % (be, "2 5" if be == 3 else "0 1", WORD.get(be, 16)))
+        sw.append("create_box %d 30 33 -1 3 %s %d 2" % (be, "3 4" if be == 3 else "0 1", WORD.get(be, 16)))
+    sw += _w_box()
     fs, es, rs_ = run_sweeps("asan", sw, "C16-sweep")
     vs = validate("TraceCodes", fs)
     _collect(chk, vs, ["C16", "fault"])
@@ -319,6 +326,8 @@ def c13():
         for w in ws:
             for k0 in range(-1, 34, 5):
                 box.append("create_box %d %d %d -1 33 %s %d 1" % (be, k0, min(k0 + 4, 33), "3 4" if be == 3 else "2 2", w))
+    # every backend x word sizes the caller may pass, small (k, m) box: refused or accepted, never a leak or a fault
+    box += _w_box()
     fb, eb, rb = run_sweeps("asan", box, "C13-box")
     vb = validate("TraceCodes", fb)
     _collect(chk, vb, ["C13", "C14 create returned descriptor 0", "fault"])
@@ -354,6 +363,14 @@ def c13():
         "TLC: refusal class (rc < 0) exactly where the model demands it, nothing kept allocated (ledger), no Fault event (ASan/UBSan); "
         "non-trivial = refused calls + box shapes" % nrand,
         ["TLC", "ASan/UBSan", "allocation ledger"], exhaustive=False)
+
+
+def _w_box():
+    out = []
+    for be in (0, 3, 4, 6, 7):
+        for w in (-8, -1, 1, 4, 7, 9, 12, 15, 17, 24, 31, 33, 48, 63, 64, 65, 128, 255, 256, 65536):
+            out.append("create_box %d 1 5 0 3 %s %d %d" % (be, "3 4" if be == 3 else "0 2", w, 1 + (w % 2)))
+    return out
 
 
 def _argclass_history(seed, i):
